@@ -354,7 +354,7 @@ class Session:
         history without the armed faults and without the attempts they stopped, replayed on a fresh manager."""
         if self.no_recovery_oracle or self.recovery_checks >= 2 or cyclic:
             return
-        if self.mirror.dataflow_cyclic() or self.mirror.overlapping_targets():
+        if self.mirror.dataflow_cyclic() or self.mirror.overlapping_targets() or getattr(self, "ever_out_of_scope", False):
             return
         if any(l["impl"]["exc"] not in ("ok", "Fault") for l in self.lines):
             return          # another failure left a partial update whose extent depends on the order of independent tasks
@@ -642,6 +642,7 @@ class Session:
                 if self.c01_live:
                     stats["c01_out_of_scope"] += 1
                 self.c01_live = False
+                self.ever_out_of_scope = True      # a definition that reads what it writes: the state depends on how often it ran
             if self.c01_live:
                 self._c01_pull(p, trig, cyc2)
 
